@@ -216,6 +216,37 @@ def frame_pixels(spec, key, w, h):
     return out
 
 
+def set_pixels(V, fr, px, how):
+    """Give a frame its RGBA content through one of the public ways of doing so."""
+    n = fr.width * fr.height
+    if how in (1, 6):                              # from another Frame (onto a blank / an already filled frame)
+        src = V.Frame(fr.width, fr.height)
+        src.copy_from(bytes(px))
+        if how == 6:
+            fr.fill(1, 2, 3, 4)
+        fr.copy_from(src)
+    elif how == 2 and px == px[:4] * n:            # constant colour
+        fr.fill(*px[:4])
+    elif how == 3 and n <= 16:                     # pixel by pixel
+        fr.fill(9, 9, 9, 9)
+        for i in range(n):
+            fr[i % fr.width, i // fr.width] = tuple(px[4 * i:4 * i + 4])
+    elif how == 4:                                 # from BGRA-ordered bytes
+        d = []
+        for i in range(n):
+            r, g, b, a = px[4 * i:4 * i + 4]
+            d += [b, g, r, a]
+        fr.copy_from(bytearray(d), V.ImageFormats.BGRA8888)
+    elif how == 5:                                 # from ABGR-ordered bytes, through a memoryview
+        d = []
+        for i in range(n):
+            r, g, b, a = px[4 * i:4 * i + 4]
+            d += [a, b, g, r]
+        fr.copy_from(memoryview(bytes(d)), V.ImageFormats.ABGR8888)
+    else:
+        fr.copy_from(bytes(px))
+
+
 def key_val(k):
     return (k[0], k[1].value if hasattr(k[1], 'value') else k[1], k[2])
 
@@ -248,7 +279,7 @@ def build(V, spec):
         kv = key_val(k)
         px = frame_pixels(spec, kv, fr.width, fr.height)
         if px is not None:
-            fr.copy_from(bytes(px))
+            set_pixels(V, fr, px, random.Random(f'{spec["seed"]}:set:{kv}').randrange(7))
         frames.append({'key': list(kv), 'w': fr.width, 'h': fr.height, 'data': px})
     mj = {
         'width': v.width, 'height': v.height, 'depth': v.depth, 'minor': v.version[1], 'flags': v.flags.value,
